@@ -9,6 +9,8 @@ import (
 	"os"
 	"sort"
 	"strings"
+
+	"golang.org/x/tools/go/cfg"
 )
 
 // one named site each, with the reason the skipped clean-up is harmless there
@@ -1569,5 +1571,572 @@ func ruleAxisDiscipline(r *Report, rule string, pkgs ...string) {
 	}
 	if n < 20 {
 		undecidedf("axis rule matched %d comparisons/arguments", n)
+	}
+}
+
+// ruleCompactFormComplete (K9c): a MarshalJSON that takes a short-cut (an
+// early successful return under a condition) before writing the full form
+// must let every receiver field that the full form depends on take part in
+// the short-cut: either the condition tests it or the short form encodes it.
+// Otherwise a value with a non-default setting of that field is written in
+// the short form and comes back with the default.
+func ruleCompactFormComplete(r *Report, rule string, pkgs ...string) {
+	p := r.P
+	n := 0
+	for _, pk := range pkgs {
+		for _, fi := range p.funcsInPkg(pk) {
+			if fi.Decl.Body == nil || fi.Obj.Name() != "MarshalJSON" || fi.Decl.Recv == nil {
+				continue
+			}
+			info := fi.Pkg.TypesInfo
+			recv := recvObj(fi)
+			if recv == nil {
+				continue
+			}
+			fieldsRead := func(nodes ...ast.Node) map[string]bool {
+				out := map[string]bool{}
+				for _, nd := range nodes {
+					if nd == nil {
+						continue
+					}
+					ast.Inspect(nd, func(x ast.Node) bool {
+						if sel, ok := x.(*ast.SelectorExpr); ok && objOf(info, sel.X) == recv {
+							if v, ok := info.ObjectOf(sel.Sel).(*types.Var); ok && v.IsField() {
+								out[v.Name()] = true
+							}
+						}
+						return true
+					})
+				}
+				return out
+			}
+			for i, st := range fi.Decl.Body.List {
+				is, ok := st.(*ast.IfStmt)
+				if !ok || is.Else != nil || is.Init != nil {
+					continue
+				}
+				// a successful early return inside the branch
+				succ := false
+				for _, rs := range returnsOf(is.Body) {
+					if len(rs.Results) == 2 && !isNilIdent(info, rs.Results[0]) {
+						if c, ok := rs.Results[0].(*ast.CallExpr); ok || !ok {
+							_ = c
+							succ = true
+						}
+					}
+					if len(rs.Results) == 1 {
+						if _, isCall := rs.Results[0].(*ast.CallExpr); isCall {
+							succ = true
+						}
+					}
+				}
+				if !succ {
+					continue
+				}
+				compact := fieldsRead(is.Cond, is.Body)
+				if len(compact) == 0 {
+					continue
+				}
+				var rest []ast.Node
+				for _, s2 := range fi.Decl.Body.List[i+1:] {
+					rest = append(rest, s2)
+				}
+				full := fieldsRead(rest...)
+				if len(full) == 0 {
+					continue
+				}
+				var missing []string
+				for f := range full {
+					if !compact[f] {
+						missing = append(missing, f)
+					}
+				}
+				sort.Strings(missing)
+				n++
+				r.Fn(fi)
+				r.Ob(rule, fi.Name+"/short-form-accounts-for-every-field", is.Pos(), len(missing) == 0,
+					"the short form is chosen without looking at field(s) "+strings.Join(missing, ", ")+", which the full form below does encode: a value with a non-default "+strings.Join(missing, "/")+" is written in the short form and decodes back with the default")
+			}
+		}
+	}
+	if n < 1 {
+		undecidedf("compact-form rule matched no MarshalJSON with a short-cut")
+	}
+}
+
+// positiveByFacts: the guard facts establish v >= 1 (v an identifier's text).
+func positiveByFacts(info *types.Info, facts []Fact, v string) (bool, string) {
+	for _, f := range facts {
+		b2, ok := ast.Unparen(f.Expr).(*ast.BinaryExpr)
+		if !ok || f.Tag != nil {
+			continue
+		}
+		l, rr, op := exprStr(b2.X), exprStr(b2.Y), b2.Op
+		if rr == v { // constant on the left: flip
+			l, rr = rr, l
+			switch op {
+			case token.LSS:
+				op = token.GTR
+			case token.GTR:
+				op = token.LSS
+			case token.LEQ:
+				op = token.GEQ
+			case token.GEQ:
+				op = token.LEQ
+			}
+		}
+		if l != v {
+			continue
+		}
+		k, isC := intConst(info, func() ast.Expr {
+			if exprStr(b2.X) == v {
+				return b2.Y
+			}
+			return b2.X
+		}())
+		if !isC {
+			continue
+		}
+		switch {
+		case op == token.GTR && f.Truth && k >= 0,
+			op == token.GEQ && f.Truth && k >= 1,
+			op == token.LSS && !f.Truth && k >= 1,
+			op == token.LEQ && !f.Truth && k >= 0,
+			op == token.NEQ && f.Truth && k == 0,
+			op == token.EQL && !f.Truth && k == 0:
+			return true, f.String()
+		}
+	}
+	return false, ""
+}
+
+func factsWithShortCircuit(g *FCFG, body ast.Node, at ast.Node) []Fact {
+	facts := g.GuardsOf(at)
+	for _, anc := range enclosing(body, at) {
+		if b3, ok := anc.(*ast.BinaryExpr); ok && (b3.Op == token.LOR || b3.Op == token.LAND) && len(enclosing(b3.Y, at)) > 0 {
+			splitCond(b3.X, b3.Op == token.LAND, &facts)
+		}
+	}
+	return facts
+}
+
+// ruleIndexMinusOneGuarded: x[v-1] with v a variable needs v >= 1 on every
+// path: by a dominating test, by the loop that introduces v starting at 1, or -
+// when v is a parameter - at every call site of the function (one level).
+func ruleIndexMinusOneGuarded(r *Report, rule string, inScope func(rel string) bool) {
+	p := r.P
+	n := 0
+	type pending struct {
+		fi    *FuncInfo
+		param *types.Var
+		pidx  int
+		site  *ast.IndexExpr
+	}
+	var pend []pending
+	for _, fi := range p.flist {
+		if fi.Decl.Body == nil || !inScope(relPkg(fi.Pkg.PkgPath)) {
+			continue
+		}
+		info := fi.Pkg.TypesInfo
+		for _, bu := range bodiesOf(fi) {
+			var g *FCFG
+			inspectNoLit(bu.Body, func(x ast.Node) bool {
+				ix, ok := x.(*ast.IndexExpr)
+				if !ok {
+					return true
+				}
+				be, ok := ast.Unparen(ix.Index).(*ast.BinaryExpr)
+				if !ok || be.Op != token.SUB {
+					return true
+				}
+				if k, isC := intConst(info, be.Y); !isC || k != 1 {
+					return true
+				}
+				id, ok := ast.Unparen(be.X).(*ast.Ident)
+				if !ok {
+					return true
+				}
+				vobj, _ := info.ObjectOf(id).(*types.Var)
+				if vobj == nil {
+					return true
+				}
+				if tv, ok := info.Types[ix.X]; ok {
+					if _, isMap := tv.Type.Underlying().(*types.Map); isMap {
+						return true
+					}
+				}
+				n++
+				r.Fn(fi)
+				if g == nil {
+					g = buildCFG(info, bu.Body)
+				}
+				ok2, why := positiveByFacts(info, factsWithShortCircuit(g, bu.Body, ix), id.Name)
+				if !ok2 {
+					// the variable is introduced by a loop that starts at >= 1, or assigned len(...) guarded... (only the loop form is recognised)
+					for _, anc := range enclosing(bu.Body, ix) {
+						if fs, isFor := anc.(*ast.ForStmt); isFor && fs.Init != nil {
+							if as, isAs := fs.Init.(*ast.AssignStmt); isAs && len(as.Lhs) == 1 && len(as.Rhs) == 1 && objOf(info, as.Lhs[0]) == vobj {
+								if k, isC := intConst(info, as.Rhs[0]); isC && k >= 1 {
+									// and the loop only counts upwards
+									if inc, isInc := fs.Post.(*ast.IncDecStmt); isInc && inc.Tok == token.INC {
+										ok2, why = true, "loop starts at "+exprStr(as.Rhs[0])
+									}
+								}
+							}
+						}
+					}
+				}
+				if !ok2 {
+					// a counter that only grows (initialised to a constant >= 0, changed only by ++ / += positive constant)
+					// and was incremented on every path to this point
+					onlyGrows, incDominates := true, false
+					ast.Inspect(bu.Body, func(y ast.Node) bool {
+						switch s := y.(type) {
+						case *ast.IncDecStmt:
+							if objOf(info, s.X) == vobj {
+								if s.Tok != token.INC {
+									onlyGrows = false
+								} else if g.DominatesNode(s, ix) {
+									incDominates = true
+								}
+							}
+						case *ast.AssignStmt:
+							for i, l := range s.Lhs {
+								if objOf(info, l) != vobj {
+									continue
+								}
+								if i >= len(s.Rhs) {
+									onlyGrows = false
+									continue
+								}
+								k, isC := intConst(info, s.Rhs[i])
+								switch {
+								case (s.Tok == token.DEFINE || s.Tok == token.ASSIGN) && isC && k >= 0:
+								case s.Tok == token.ADD_ASSIGN && isC && k >= 1:
+									if g.DominatesNode(s, ix) {
+										incDominates = true
+									}
+								default:
+									onlyGrows = false
+								}
+							}
+						}
+						return true
+					})
+					if onlyGrows && incDominates {
+						ok2, why = true, "monotone counter incremented before the access"
+					}
+				}
+				if !ok2 && bu.Lit == nil && fi.Obj.Name() == "Pop" && fi.Decl.Recv != nil {
+					// container/heap contract: Pop is only called on a non-empty heap
+					if nt := namedOf(fi.Obj.Type().(*types.Signature).Recv().Type()); nt != nil {
+						have := map[string]bool{}
+						ms := types.NewMethodSet(types.NewPointer(nt))
+						for i := 0; i < ms.Len(); i++ {
+							have[ms.At(i).Obj().Name()] = true
+						}
+						if have["Len"] && have["Less"] && have["Swap"] && have["Push"] {
+							r.Allow(rule, bu.Name+"/"+exprStr(ix)+"-index-at-least-zero", ix.Pos(), "heap.Interface.Pop: container/heap calls it only on a non-empty heap")
+							return true
+						}
+					}
+				}
+				if !ok2 {
+					// parameter: the obligation moves to the call sites
+					sig := fi.Obj.Type().(*types.Signature)
+					if bu.Lit == nil {
+						for i := 0; i < sig.Params().Len(); i++ {
+							if sig.Params().At(i) == vobj {
+								pend = append(pend, pending{fi, vobj, i, ix})
+								r.Ob(rule, bu.Name+"/"+exprStr(ix)+"-guarded-by-callers", ix.Pos(), true, "index "+exprStr(ix)+" relies on the callers passing "+id.Name+" >= 1 (checked at each call site below)")
+								return true
+							}
+						}
+					}
+				}
+				r.Ob(rule, bu.Name+"/"+exprStr(ix)+"-index-at-least-zero", ix.Pos(), ok2, "index "+exprStr(ix)+": no dominating test shows "+id.Name+" >= 1 (with "+id.Name+" == 0 this panics with index out of range [-1]) "+why)
+				return true
+			})
+		}
+	}
+	seenPend := map[string]bool{}
+	for _, pd := range pend {
+		if seenPend[pd.fi.Name+"/"+pd.param.Name()] {
+			continue
+		}
+		seenPend[pd.fi.Name+"/"+pd.param.Name()] = true
+		sites := 0
+		for _, caller := range p.flist {
+			if caller.Decl.Body == nil {
+				continue
+			}
+			cinfo := caller.Pkg.TypesInfo
+			for _, bu := range bodiesOf(caller) {
+				var g *FCFG
+				for _, c := range callsIn(bu.Body) {
+					if callee(cinfo, c) != pd.fi.Obj || pd.pidx >= len(c.Args) {
+						continue
+					}
+					sites++
+					n++
+					r.Fn(caller)
+					if g == nil {
+						g = buildCFG(cinfo, bu.Body)
+					}
+					a := ast.Unparen(c.Args[pd.pidx])
+					ok2, why := false, ""
+					if k, isC := intConst(cinfo, a); isC && k >= 1 {
+						ok2, why = true, "constant"
+					} else if id, isID := a.(*ast.Ident); isID {
+						ok2, why = positiveByFacts(cinfo, factsWithShortCircuit(g, bu.Body, c), id.Name)
+					} else if be, isB := a.(*ast.BinaryExpr); isB && be.Op == token.ADD {
+						if k, isC := intConst(cinfo, be.Y); isC && k >= 1 {
+							ok2, why = true, "index+constant"
+						}
+					}
+					r.Ob(rule, bu.Name+"/call-"+pd.fi.Obj.Name()+"("+exprShort(a)+")-passes-positive-"+pd.param.Name(), c.Pos(), ok2, pd.fi.Obj.Name()+" indexes with "+pd.param.Name()+"-1 ("+p.Pos(pd.site.Pos())+"), so this call must guarantee "+exprStr(a)+" >= 1; no dominating test shows it "+why)
+				}
+			}
+		}
+		if sites == 0 {
+			r.InfoOb(rule, pd.fi.Name+"/no-static-callers", pd.site.Pos(), "exported or indirectly called: precondition "+pd.param.Name()+" >= 1 left to callers")
+		}
+	}
+	if n < 5 {
+		undecidedf("index-minus-one rule matched %d sites", n)
+	}
+}
+
+// ruleNilSlotsNotDereferenced: a method that punches nil holes into a slice of
+// pointers (t[i] = nil on its receiver) changes the typestate of that slice:
+// afterwards its elements may only be used behind a nil test.  In every
+// function that calls such a method on a variable, no unguarded element
+// dereference of that variable (directly or inside a closure handed to a later
+// call) is reachable after the call.
+func ruleNilSlotsNotDereferenced(r *Report, rule string, pkgPrefix string) {
+	p := r.P
+	holePunchers := map[*types.Func]bool{}
+	for _, fi := range p.flist {
+		if fi.Decl.Body == nil || fi.Decl.Recv == nil || !strings.HasPrefix(relPkg(fi.Pkg.PkgPath), pkgPrefix) {
+			continue
+		}
+		info := fi.Pkg.TypesInfo
+		recv := recvObj(fi)
+		ast.Inspect(fi.Decl.Body, func(x ast.Node) bool {
+			as, ok := x.(*ast.AssignStmt)
+			if !ok || len(as.Lhs) != 1 || len(as.Rhs) != 1 || !isNilIdent(info, as.Rhs[0]) {
+				return true
+			}
+			if ix, ok := as.Lhs[0].(*ast.IndexExpr); ok && recv != nil && objOf(info, ix.X) == recv {
+				holePunchers[fi.Obj] = true
+			}
+			return true
+		})
+	}
+	if len(holePunchers) == 0 {
+		undecidedf("no nil-slotting method found under %s", pkgPrefix)
+	}
+	n := 0
+	for _, fi := range p.flist {
+		if fi.Decl.Body == nil || !strings.HasPrefix(relPkg(fi.Pkg.PkgPath), pkgPrefix) {
+			continue
+		}
+		info := fi.Pkg.TypesInfo
+		var g *FCFG
+		for _, c := range callsIn(fi.Decl.Body) {
+			f := callee(info, c)
+			if f == nil || !holePunchers[f] {
+				continue
+			}
+			sel, ok := ast.Unparen(c.Fun).(*ast.SelectorExpr)
+			if !ok {
+				continue
+			}
+			x := objOf(info, sel.X)
+			if x == nil {
+				continue
+			}
+			n++
+			r.Fn(fi)
+			if g == nil {
+				g = buildCFG(info, fi.Decl.Body)
+			}
+			bad := ""
+			ast.Inspect(fi.Decl.Body, func(y ast.Node) bool {
+				rs, ok := y.(*ast.RangeStmt)
+				if !ok || objOf(info, rs.X) != x || rs.Value == nil {
+					return true
+				}
+				v := objOf(info, rs.Value)
+				// unguarded dereference of the element inside the loop body
+				deref := false
+				var lg *FCFG
+				ast.Inspect(rs.Body, func(z ast.Node) bool {
+					se, ok := z.(*ast.SelectorExpr)
+					if !ok || objOf(info, se.X) != v {
+						return true
+					}
+					if lg == nil {
+						lg = buildCFG(info, innermostFuncBody(fi.Decl, rs))
+					}
+					guarded := false
+					for _, fct := range factsWithShortCircuit(lg, rs.Body, se) {
+						if e, isEq, isNil := nilTest(info, fct.Expr); isNil && objOf(info, e) == v && isEq != fct.Truth {
+							guarded = true
+						}
+					}
+					if !guarded {
+						deref = true
+					}
+					return true
+				})
+				if !deref {
+					return true
+				}
+				// is the loop (or the call that receives the closure containing it) reachable after the hole-punching call?
+				var node ast.Node = rs
+				for _, anc := range enclosing(fi.Decl.Body, rs) {
+					if _, ok := g.Locate(anc); ok {
+						node = anc // outermost CFG node of the outer function that contains the loop
+						break
+					}
+				}
+				if _, ok := g.Locate(node); !ok {
+					node = rs.X
+				}
+				if g.ReachesNode(c, node) {
+					bad = p.Pos(rs.Pos())
+				}
+				return true
+			})
+			r.Ob(rule, fi.Name+"/"+x.Name()+"-elements-nil-checked-after-"+f.Name(), c.Pos(), bad == "",
+				"after "+exprShort(c)+" the slice "+x.Name()+" contains nil entries; the loop at "+bad+" dereferences its elements without a nil test and is reachable after the call (nil pointer dereference for overlapping term locations)")
+		}
+	}
+	if n < 1 {
+		undecidedf("no call of a nil-slotting method found under %s", pkgPrefix)
+	}
+}
+
+// reachesAvoiding: some path leads from just after `from` to `to` without
+// executing `avoid` (all three are CFG nodes of g).
+func (f *FCFG) reachesAvoiding(from, to, avoid ast.Node) bool {
+	lf, ok1 := f.Locate(from)
+	lt, ok2 := f.Locate(to)
+	la, ok3 := f.Locate(avoid)
+	if !ok1 || !ok2 {
+		return true
+	}
+	type st struct {
+		b *cfg.Block
+		i int
+	}
+	seen := map[*cfg.Block]bool{}
+	work := []st{{lf.B, lf.I + 1}}
+	for len(work) > 0 {
+		cur := work[len(work)-1]
+		work = work[:len(work)-1]
+		blocked := false
+		for i := cur.i; i < len(cur.b.Nodes); i++ {
+			if ok3 && cur.b == la.B && i == la.I {
+				blocked = true
+				break
+			}
+			if cur.b == lt.B && i == lt.I {
+				return true
+			}
+		}
+		if blocked {
+			continue
+		}
+		for _, s := range cur.b.Succs {
+			if !seen[s] {
+				seen[s] = true
+				work = append(work, st{s, 0})
+			}
+		}
+	}
+	return false
+}
+
+// rulePivotFixedDuringAlignment: NestedConjunctionSearcher.Next decides
+// "all children are on the pivot key" with a flag that a pass over the children
+// clears when one of them is off the pivot.  The verdict is only meaningful if
+// the pivot does not move during the pass: an assignment to the pivot inside
+// the pass must clear the flag before the pass goes on (children visited
+// earlier were compared with the old pivot).
+func rulePivotFixedDuringAlignment(r *Report, rule string) {
+	p := r.P
+	fi := p.MustFunc("search/searcher.(*NestedConjunctionSearcher).Next")
+	r.Fn(fi)
+	info := fi.Pkg.TypesInfo
+	g := buildCFG(info, fi.Decl.Body)
+	// the flag: a bool local assigned false inside a for loop and initialised true before it
+	n := 0
+	ast.Inspect(fi.Decl.Body, func(x ast.Node) bool {
+		loop, ok := x.(*ast.ForStmt)
+		if !ok {
+			return true
+		}
+		var clear *ast.AssignStmt
+		inspectNoLit(loop.Body, func(y ast.Node) bool {
+			if as, ok := y.(*ast.AssignStmt); ok && len(as.Lhs) == 1 && len(as.Rhs) == 1 && exprStr(as.Rhs[0]) == "false" {
+				if o := objOf(info, as.Lhs[0]); o != nil && isBoolType(o.Type()) && !(o.Pos() >= loop.Pos() && o.Pos() <= loop.End()) {
+					// innermost loop only
+					inner := true
+					for _, anc := range enclosing(loop.Body, as) {
+						if _, isLoop := anc.(*ast.ForStmt); isLoop {
+							inner = false
+						}
+						if _, isLoop := anc.(*ast.RangeStmt); isLoop {
+							inner = false
+						}
+					}
+					if inner {
+						clear = as
+					}
+				}
+			}
+			return true
+		})
+		if clear == nil || loop.Post == nil {
+			return true
+		}
+		// pivot candidates: operands of Compare calls in the loop that are declared outside it
+		pivots := map[types.Object]bool{}
+		for _, c := range callsIn(loop.Body) {
+			if f := callee(info, c); f != nil && f.Name() == "Compare" {
+				for _, a := range c.Args {
+					if o := objOf(info, a); o != nil && !(o.Pos() >= loop.Pos() && o.Pos() <= loop.End()) {
+						pivots[o] = true
+					}
+				}
+			}
+		}
+		if len(pivots) == 0 {
+			return true
+		}
+		n++
+		bad := ""
+		inspectNoLit(loop.Body, func(y ast.Node) bool {
+			as, ok := y.(*ast.AssignStmt)
+			if !ok {
+				return true
+			}
+			for _, l := range as.Lhs {
+				if o := objOf(info, l); o != nil && pivots[o] {
+					if g.reachesAvoiding(as, loop.Post, clear) {
+						bad = p.Pos(as.Pos())
+					}
+				}
+			}
+			return true
+		})
+		r.Ob(rule, fi.Name+"/pivot-not-moved-without-clearing-"+exprStr(clear.Lhs[0]), loop.Pos(), bad == "",
+			"inside the alignment pass the pivot is reassigned at "+bad+" on a path that reaches the next child without `"+exprStr(clear.Lhs[0])+" = false`: children already visited were compared with the old pivot, so matches of different parents can be joined")
+		return true
+	})
+	if n < 1 {
+		undecidedf("%s: alignment pass (flag cleared inside a counted loop over Compare with an outer pivot) not found", fi.Name)
 	}
 }
